@@ -2,13 +2,14 @@
 from __future__ import annotations
 
 import copy
+import os
 import time
 
 from architecture_simulator.uarch.memory.replacement_strategies import LRU, PLRU
 
 from vf.checks import cachebfs
 from vf.engine.canon import canon
-from vf.engine.core import Partial, pmap
+from vf.engine.core import REPO, Partial, pmap
 from vf.ref import policy as pol
 
 ID = "C10"
@@ -135,9 +136,81 @@ def policy_space(shard):
     return p
 
 
+_CODE = None
+
+
+def pristine_classes():
+    """The policy classes of the tree under test, executed afresh: class-level and module-level state starts as it does
+    in a new process, whatever earlier histories did (a history that fails here fails in a fresh interpreter, too)."""
+    global _CODE
+    if _CODE is None:
+        path = os.path.join(REPO, "architecture_simulator", "uarch", "memory", "replacement_strategies.py")
+        with open(path) as f:
+            _CODE = compile(f.read(), path, "exec")
+    ns = {"__name__": "architecture_simulator.uarch.memory.replacement_strategies"}
+    exec(_CODE, ns)
+    return {"lru": ns["LRU"], "plru": ns["PLRU"]}
+
+
+def run_pair(objs, hist):
+    """Two live policy objects in one process, one history of operations on either. -> (step, field, detail) or None"""
+    cls = pristine_classes()
+    live = []
+    for kind, n in objs:
+        live.append((kind, cls[kind](n), pol.LRURef(n) if kind == "lru" else pol.PLRURef(n)))
+    for k, (w, op) in enumerate(hist):
+        kind, impl, ref = live[w]
+        d = apply_op(kind, impl, ref, op)
+        if d:
+            return k, d[0], d[1]
+    return None
+
+
+def pair_name(objs, hist):
+    names = [f"{'AB'[w]}={k.upper()}({n})" for w, (k, n) in enumerate(objs)]
+    return ", ".join(names) + ": " + "; ".join(f"{'AB'[w]}.{opn(op)}" for w, op in hist)
+
+
+def pair_shard(shard):
+    """Every history up to the given length over the operations of TWO policy objects that live side by side (same or
+    different kind and size), each history on pristine classes: one object's answers never depend on another object."""
+    objs, first, depth = shard
+    p = Partial()
+    ops = [(w, o) for w, (kind, n) in enumerate(objs) for o in [("a", i) for i in range(n)] + [("r",), ("v",)]]
+
+    def rec(hist):
+        p.evaluations += 1
+        p.traces += 1
+        p.transitions += 1
+        bad = run_pair(objs, hist)
+        if bad is not None:
+            k, f, d = bad
+            p.violation(dict(oracle="policy-pair", policy=objs[hist[k][0]][0], field=f),
+                        dict(kind="policy-pair", objs=[list(o) for o in objs], hist=[[w, list(o)] for w, o in hist]),
+                        pair_name(objs, hist[:k + 1]) + ": " + d, size=(len(hist), pair_name(objs, hist)))
+            return
+        if len({w for w, _ in hist}) == 2:
+            p.nontrivial += 1
+            p.counters["pair-interleaved"] += 1
+        if len(hist) < depth:
+            for o in ops:
+                rec(hist + [o])
+
+    rec([first])
+    return p
+
+
 def replay(case):
     if case["kind"] == "cache-history":
         return cachebfs.replay(case)
+    if case["kind"] == "policy-pair":
+        objs = [tuple(o) for o in case["objs"]]
+        hist = [(w, tuple(o)) for w, o in case["hist"]]
+        bad = run_pair(objs, hist)
+        if bad is None:
+            return []
+        k, f, d = bad
+        return [(dict(oracle="policy-pair", policy=objs[hist[k][0]][0], field=f), pair_name(objs, hist[:k + 1]) + ": " + d)]
     kind, n = case["policy"], case["n"]
     hist = [tuple(o) for o in case["hist"]]
     impl, ref = make(kind, n)
@@ -160,7 +233,7 @@ def run(ctx):
     ctx.rule = ("(1) complete reachable state space of LRU(n) and PLRU(n) objects: BFS to a fixed point over the operations {access(i), get_repr(), "
                 "get_next_to_replace()} from every state (the observers are operations on the live object: their answers must not depend on earlier observer "
                 "calls), victim / get_repr() against reference policies (LRU by time stamps, PLRU as an explicit recursive tree), idempotence of a "
-                "repeated access; (2) binding to the cache set: BFS to closure over word reads/writes of ways+1 colliding tags on a real "
+                "repeated access; (1b) every history up to a bound over the operations of TWO policy objects living side by side (all pairs of kinds and sizes, same or different), each history on freshly executed class definitions, every answer against the reference of its own object; (2) binding to the cache set: BFS to closure over word reads/writes of ways+1 colliding tags on a real "
                 "one-set data cache (constant data), comparing way-by-way tags and the replacement_status shown by cache_repr() after every "
                 "read hit, write hit and fill. Non-trivial = a state whose victim is not way 0 / a history with an eviction.")
     ctx.assumptions += ["PLRU get_repr() is read as the heap-ordered bit array the GUI draws (0 = older blocks in the upper/low-index subtree)"]
@@ -170,6 +243,24 @@ def run(ctx):
     shards = [("lru", n) for n in lru_n] + [("plru", n) for n in plru_n]
     part = pmap(policy_space, shards[::-1])
     ctx.space("policy-objects", part, t0, lru_ways=list(lru_n), plru_ways=list(plru_n), closed=True)
+    # (1b) two objects side by side
+    t0 = time.time()
+    kinds = [("lru", 1), ("lru", 2), ("lru", 3), ("plru", 1), ("plru", 2), ("plru", 4)] + ([("lru", 4), ("plru", 8)] if thorough else [])
+    shards = []
+    depths = set()
+    for i, a in enumerate(kinds):
+        for b in kinds[i:]:
+            objs = (a, b)
+            nops = a[1] + b[1] + 4
+            depth = (5 if nops <= 10 else 4) if ctx.quick else (7 if nops <= 8 else 6 if nops <= 12 else 5 if nops <= 14 else 4)
+            depths.add(depth)
+            for w, (kind, n) in enumerate(objs):
+                for o in [("a", j) for j in range(n)] + [("r",), ("v",)]:
+                    shards.append((objs, (w, o), depth))
+    part = pmap(pair_shard, shards)
+    ctx.space("policy-pairs", part, t0, objects=[f"{k}({n})" for k, n in kinds], pairs=len(kinds) * (len(kinds) + 1) // 2, history_lengths=sorted(depths),
+              note="each history starts from freshly executed class definitions")
+    ctx.require("pair-interleaved")
     # (2) set binding through the memory system
     cfgs = []
     for kind in ("wb", "wt"):
